@@ -1,9 +1,10 @@
 #!/bin/bash
-# usage: twin_ingest_some.sh C01 C02 ...   (worktrees /tmp/seed/<Cxx>t; parallel across properties)
+# usage: twin_ingest_some.sh [-s suffix] C01 C02 ...   (worktrees /tmp/seed/<Cxx><suffix>, default suffix t)
+S=t; if [ "$1" = "-s" ]; then S=$2; shift 2; fi
 for p in "$@"; do
   (
     for n in 1 2 3; do
-      /venv/bin/python /verif/tools/twin_ingest.py /tmp/seed/${p}t $n ${p}t-$n $p 2>&1 | grep -E 'OK|REJECT'
+      /venv/bin/python /verif/tools/twin_ingest.py /tmp/seed/${p}$S $n ${p}$S-$n $p 2>&1 | grep -E 'OK|REJECT'
     done
   ) &
 done
